@@ -73,6 +73,11 @@ class Stage:
         """Parameters of a SECOND module object of a different configuration that lives in the same process."""
         return case
 
+    def call_bad(self, obj, arrays, c):
+        """A call the stage must reject (raises); None = the stage has no rejecting input. The error path must leave
+        the object as good as new."""
+        return None
+
 
 class GeomThrow(Stage):
     name = "geometry.throw"
@@ -82,6 +87,9 @@ class GeomThrow(Stage):
         cfg["alt"] = cfg["alt"] * 1.7 + 3.0
         cfg["limb_frac"] = 0.37
         return dict(case, cfg=cfg)
+
+    def call_bad(self, obj, arrays, c):
+        obj.throw(np.stack(arrays[:3]))  # three rows of random numbers instead of four
 
     def make(self, case):
         from nuspacesim.simulation.geometry.region_geometry import RegionGeom
@@ -156,6 +164,13 @@ class TauEnergy(Stage):
 
     def other_case(self, case):
         return dict(case, version={"1": "2", "2": "3", "3": "1"}[case["version"]])
+
+    def call_bad(self, obj, arrays, c):
+        beta, log_e = arrays[0], arrays[1]
+        bad_e = np.array(log_e, dtype=np.float64)
+        bad_e[len(bad_e) // 2] = 12.5  # outside the tables
+        bad_b = np.clip(np.array(beta, dtype=np.float64), BETA_MIN, BETA_MAX)
+        obj.tau_exit_prob(bad_b, bad_e)
 
     def make(self, case):
         from .c04 import _taus
@@ -253,6 +268,19 @@ class Optical(Stage):
 
     def other_case(self, case):
         return dict(case, det={525.0: 33.0, 33.0: 2000.0, 2000.0: 525.0}[case["det"]])
+
+    def call_bad(self, obj, arrays, c):
+        import dask
+
+        beta, alt, E, lat, lon = arrays
+
+        def boom(la, lo):
+            raise ValueError("cloud model failed")
+
+        if not np.any((alt >= 0) & (alt <= 20)):
+            raise ValueError("nothing in range: nothing would call the cloud model")
+        with dask.config.set(scheduler="synchronous"), quiet():
+            obj(beta, alt, E, lat, lon, cloudf=boom)
 
     def make(self, case):
         from .c08 import _eas
@@ -407,6 +435,30 @@ def body_stage(case):
             r = _run(stage, obj, arrays, c)
             want = base
             labels.add("scribbled_on_results")
+        elif which == "strided":
+            # inputs handed over as non-contiguous views (every second element of an interleaved buffer)
+            views = []
+            for a in arrays:
+                buf = np.empty(2 * len(a), dtype=np.float64)
+                buf[0::2] = a
+                buf[1::2] = -99.0
+                views.append(buf[0::2])
+            snap = [v.tobytes() for v in views]
+            with cut(f"{stage.name}(non-contiguous input views)"):
+                r = [np.asarray(o) for o in stage.call(obj, tuple(views), c)]
+            require([v.tobytes() for v in views] == snap, f"{stage.name} modified its (strided) inputs")
+            want = base
+            labels.add("strided_inputs")
+        elif which == "reject":
+            rejected = False
+            try:
+                out = stage.call_bad(obj, tuple(np.array(a) for a in arrays), c)
+            except Exception:  # noqa: BLE001 - the rejection itself is C04/C05/C02's business; here: what comes after
+                rejected = True
+            r = _run(stage, obj, arrays, c)
+            want = base
+            if rejected:
+                labels.add("after_rejected_call")
         elif which == "alt":
             with cut(f"{stage.name}(other optional argument)"):
                 stage.call_alt(obj, tuple(np.array(a) for a in arrays), c)
@@ -563,7 +615,7 @@ def stage_case(names, sizes):
             "c": st.floats(0.01, 0.99),
             "perm": st.lists(st.floats(0.0, 1.0), min_size=16, max_size=16),
             "split": st.sampled_from(["0", "1", "n-1", "n", "0.5", "0.37", "0.9", "0.41"]),
-            "history": st.lists(st.sampled_from(["same", "perm", "half", "refill", "refill", "scribble", "alt", "other", "other"]), min_size=1, max_size=5),
+            "history": st.lists(st.sampled_from(["same", "perm", "half", "refill", "refill", "scribble", "alt", "other", "other", "strided", "reject", "reject"]), min_size=1, max_size=6),
         }
     )
 
